@@ -16,7 +16,16 @@ cd "$wt"
 res_apply=ok; git apply "$src/patch.diff" || res_apply=FAIL
 res_build=ok; go build ./... 2>/tmp/confirm-build-$$.log || res_build=FAIL
 ( eval "$cmd" ) > /tmp/confirm-with-$$.log 2>&1; with_rc=$?
-base_out=$(python3 /verif/scripts/baseline_diff.py "$wt" 2>&1 | head -1)
+python3 /verif/scripts/baseline_diff.py "$wt" > /tmp/confirm-base-$$.log 2>&1
+base_out=$(head -1 /tmp/confirm-base-$$.log)
+if ! echo "$base_out" | grep -q 'not passing=0'; then
+  # tests that time out under load are retried once, package by package
+  pk=$(grep NOT-PASSING /tmp/confirm-base-$$.log | awk '{print $2}' | sed 's/::.*//' | sort -u | sed 's|github.com/bufbuild/buf|.|')
+  if [ -n "$pk" ]; then
+    retry=$(python3 /verif/scripts/baseline_diff.py "$wt" $pk 2>&1)
+    if echo "$retry" | head -1 | grep -q 'not passing=0'; then base_out="$base_out; retried packages [$(echo $pk)]: not passing=0"; else base_out="$base_out; retry: $(echo "$retry" | tr '\n' ' ' | cut -c1-300)"; fi
+  fi
+fi
 git apply -R "$src/patch.diff"
 ( eval "$cmd" ) > /tmp/confirm-without-$$.log 2>&1; without_rc=$?
 ok=no
